@@ -3,7 +3,7 @@
    check_case: the model computes what the implementation (and the library) did.
    spec_case : what the implementation did satisfies the specification, judged on the
                observations alone (no model function on the judged side). *)
-From Sdns Require Export Common.Base Gen.C05 C05.Model C05.Edns C05.Chase.
+From Sdns Require Export Common.Base Gen.C05 C05.Model C05.Edns C05.Chase C05.Verdict.
 Open Scope N_scope.
 
 (* what dns.Msg.Unpack did on the packet: error, or the number of decoded questions and
@@ -44,7 +44,18 @@ Inductive case :=
             (code_segs : option (list N)) (code_comp : option (list (rrec N) * bool))
             (wire_reply : option (list (rrec N)))
             (mview : option (centry N * list (N * centry N)))
-            (msg_reply : option (N * list (rrec N))).
+            (msg_reply : option (N * list (rrec N)))
+  (* the admission-time serving verdict on real cache state (overlay hook cache.VC05VerdictView, taken right
+     before the packet): the exact entry's full stored body decoded with the library, the flags the code keeps
+     (wireServe), its stripped body + strippedServe, which body wireBodyFor picked for the client's DO bit
+     (0 none / 1 stored / 2 stripped) with its flags, wireInfoFor's HasDNSSEC, the stored packed body itself
+     ([] = not exported; fed to the translated prepareWireServe), whether the byte path served the exact hit
+     (outcome counter `served`), and the sections (TTL erased) of the replies both servers really sent *)
+| CaseVerdict (qtype : N) (do cd : bool) (qname : N)
+              (full : vbody N) (code_flags : vflags) (code_stripped : option (vbody N * vflags))
+              (code_choice : N) (code_choice_flags : vflags) (code_info_dnssec : bool)
+              (wire_bytes : list N) (route_served : bool)
+              (wire_reply msg_reply : option (vbody N)).
 
 Fixpoint bytes_eqb (a b : list N) : bool :=
   match a, b with
@@ -123,6 +134,22 @@ Definition opt_names_eqb (a b : option (list N)) : bool :=
   | _, _ => false
   end.
 
+(* verdict cases: TTL-blind section equality (the AD bit of a reply is hit_header_eq's business) *)
+Definition vbody_eqb (a b : vbody N) : bool :=
+  (vb_rcode N a =? vb_rcode N b) && rrecs_eqb (vb_an N a) (vb_an N b) && rrecs_eqb (vb_ns N a) (vb_ns N b)
+  && rrecs_eqb (vb_ar N a) (vb_ar N b).
+Definition vflags_eqb (a b : vflags) : bool :=
+  Bool.eqb (vf_eligible a) (vf_eligible b) && Bool.eqb (vf_dnssec a) (vf_dnssec b) && Bool.eqb (vf_chase_safe a) (vf_chase_safe b).
+Definition vchoice_eqb (a b : option (vbody N * vflags)) : bool :=
+  match a, b with
+  | None, None => true
+  | Some (x, f), Some (y, g) => vbody_eqb x y && Bool.eqb (vb_ad N x) (vb_ad N y) && vflags_eqb f g
+  | _, _ => false
+  end.
+(* wireServeFlags as the byte the code stores *)
+Definition vflags_num (f : vflags) : N :=
+  (if vf_eligible f then 1 else 0) + (if vf_dnssec f then 2 else 0) + (if vf_chase_safe f then 4 else 0).
+
 (* the model's walk / composition / decoded chase on a view *)
 Definition model_collect (qtype qname : N) (v : centry N * list (N * centry N)) :=
   collect N (fun n => n) N.eqb (chase_lookup (snd v)) qtype 10 qname qname (fst v) [].
@@ -178,6 +205,32 @@ Definition check_case (c : case) : bool :=
           end
       | _, _ => true
       end
+  | CaseVerdict qtype do cd qname full cflags cstripped choice chflags cinfo bytes served wrep mrep =>
+      let e := admission N qtype full in
+      (* prepareWireServe / prepareStripped = what the entry really keeps *)
+      vflags_eqb (ve_flags N e) cflags && vchoice_eqb (ve_stripped N e) cstripped &&
+      (* wireBodyFor / wireInfoFor = what the code picks and reports for this client's DO bit *)
+      vchoice_eqb (wire_body_for N e do)
+                  (if choice =? 0 then None else if choice =? 1 then Some (full, chflags)
+                   else match cstripped with Some (sb, _) => Some (sb, chflags) | None => None end) &&
+      match wire_body_for N e do with Some (_, f) => Bool.eqb (info_dnssec N e f) cinfo | None => true end &&
+      (* the translated prepareWireServe on the stored octets = the stored flag byte *)
+      match bytes with
+      | [] => true
+      | _ => match go_prepareWireServe 300 bytes with Some n => n =? vflags_num cflags | None => false end
+      end &&
+      (* the DO-class gates: a byte-served exact hit is one the model serves, with that body *)
+      match wire_exact N e do with
+      | WServe _ r => match wrep with Some w => vbody_eqb r w | None => true end
+      | _ => negb served
+      end &&
+      (* the decoded path for a chase-safe entry: ToMsg's message after the edns writer's DNSSEC step *)
+      match mrep with
+      | Some m =>
+          if vf_chase_safe (ve_flags N e) && no_self_alias N (fun n => n) N.eqb qname (vb_an N full)
+          then vbody_eqb (edns_write_msg N qtype do full) m else true
+      | None => true
+      end
   end.
 
 (* the specification, on observations only:
@@ -220,4 +273,8 @@ Definition spec_case (c : case) : bool :=
           match msg_reply with Some (rc, m) => (rc =? 0) && rrecs_eqb recs m | None => true end
       | None => true
       end
+  | CaseVerdict _ _ _ _ _ _ _ _ _ _ _ _ wrep mrep =>
+      (* observations only: the byte-served exact hit and the decoded reply for the same packet on the same
+         history carry the same rcode and the same three sections, record for record *)
+      match wrep, mrep with Some w, Some m => vbody_eqb w m | _, _ => true end
   end.
